@@ -103,6 +103,8 @@ func vFamilyLine(tag string, f int) string {
 		return "[a][b]" + x + "[/c]" // refused by the attribute builder while two markers are open
 	case 13:
 		return x + "[/]" // close-all with nothing open
+	case 14:
+		return "[b] " + x + "[/b] t" // the text begins with whitespace inside a marker: positions are re-based by the final trim
 	}
 	// arbitrary short ASCII line
 	s := vString(tag+".raw", 3)
@@ -112,7 +114,7 @@ func vFamilyLine(tag string, f int) string {
 	return s
 }
 
-const vFamilySize = 15
+const vFamilySize = 16
 
 // VHMarkupHistory: real histories. H lines of the family are parsed on one parser value, then a line of
 // the family; the result equals what a fresh parser returns for that line. (Complements VHMarkupPure,
